@@ -48,6 +48,7 @@ var c07Rec = regexp.MustCompile(`data-f="([^"]*)" data-a="([^"]*)" data-b="([^"]
 // the two orders in which a request builds its template: data first, or file first
 var c07LoadFirst bool
 var c07Ctor int
+var c07Prev int
 
 func c07Render(files []c07File, page string, data [][2]string) Obs {
 	m := fstest.MapFS{}
@@ -93,10 +94,25 @@ func c07Render(files []c07File, page string, data [][2]string) Obs {
 				err = fmt.Errorf("PANIC %v", x)
 			}
 		}()
-		if c07LoadFirst {
-			err = mk().Load(page).Fill(d).Render(context.Background(), &buf)
-		} else {
-			err = mk().Fill(d).Load(page).Render(context.Background(), &buf)
+		base := mk()
+		if c07Prev > 0 {
+			// the renderer has served another page before (its own layout, its own front-matter values): nothing of that
+			// page may be left behind for this one
+			m["prev.vuego"] = &fstest.MapFile{Data: []byte("---\nlayout: " + []string{"a", "b", "base", "a"}[c07Prev%4] + "\na: prev-a\nb: prev-b\n---\n<p>prev</p>")}
+			pt := base.Load("prev.vuego")
+			if c07Prev%2 == 0 {
+				var sink bytes.Buffer
+				_ = pt.Render(context.Background(), &sink)
+			}
+			delete(m, "prev.vuego")
+		}
+		switch {
+		case len(d) == 0 && c07Prev%3 == 1:
+			err = base.Load(page).Render(context.Background(), &buf) // no data: no Fill at all
+		case c07LoadFirst:
+			err = base.Load(page).Fill(d).Render(context.Background(), &buf)
+		default:
+			err = base.Fill(d).Load(page).Render(context.Background(), &buf)
 		}
 	}()
 	if err != nil {
@@ -217,6 +233,11 @@ func runC07(r *Run) {
 		r.Count(fmt.Sprintf("order:load-first=%v", c07LoadFirst))
 		c07Ctor = r.Rng.Intn(6) // 0,4,5: NewFS; 1: New(WithFS); 2: built before the layouts existed; 3: built while a default layout existed
 		r.Count(fmt.Sprintf("constructor:%d", c07Ctor))
+		c07Prev = 0
+		if r.Rng.Intn(3) == 0 {
+			c07Prev = 1 + r.Rng.Intn(12)
+		}
+		r.Count(fmt.Sprintf("served-another-page-before:%v", c07Prev > 0))
 		impl := c07Render(c.files, c.page, c.data)
 		want := c07Oracle(c.files, c.page, c.data, 100)
 		desc := map[string]any{"page": c.page, "data": c.data, "files": func() map[string]string {
